@@ -115,3 +115,22 @@ func (s *BadgerStore) VerifFinalize(nodeId crypto.Hash, timestamp uint64, lock b
 	topo := &common.SnapshotWithTopologicalOrder{Snapshot: snap, TopologicalOrder: s.VerifNextTopology()}
 	return topo, s.WriteSnapshot(topo, []crypto.Hash{nodeId})
 }
+
+// VerifSnapshotOnly writes a finalized snapshot naming transactions that are
+// already stored, WITHOUT locking or writing bodies first: what the kernel does
+// for transactions it finds in the store (validateSnapshotTransaction skips
+// validation and locking for them).
+func (s *BadgerStore) VerifSnapshotOnly(nodeId crypto.Hash, timestamp uint64, hashes ...crypto.Hash) (*common.SnapshotWithTopologicalOrder, error) {
+	head, err := s.ReadRound(nodeId)
+	if err != nil {
+		return nil, err
+	}
+	snap := &common.Snapshot{Version: common.SnapshotVersionCommonEncoding, NodeId: nodeId, RoundNumber: head.Number, References: head.References, Timestamp: timestamp}
+	for _, h := range hashes {
+		snap.AddTransaction(h)
+	}
+	snap.Hash = snap.PayloadHash()
+	snap.Signature = &crypto.CosiSignature{Mask: 1}
+	topo := &common.SnapshotWithTopologicalOrder{Snapshot: snap, TopologicalOrder: s.VerifNextTopology()}
+	return topo, s.WriteSnapshot(topo, []crypto.Hash{nodeId})
+}
